@@ -6,7 +6,7 @@ struct ilnode { struct ilnode *my_prev_node, *my_next_node; }; struct eptr { int
 struct tgc; struct clist { uintptr_t epoch; int m_mutex; size_t n; struct tgc **items; bool orphaned; };
 struct tgc { struct tgc *my_parent; uint32_t my_cancellation_requested; uint8_t my_state; uint8_t my_may_have_children; struct { bool bound, fp_settings; } my_traits; struct clist *my_context_list;
              struct ilnode my_node; struct eptr *my_exception; void *my_itt_caller; uint64_t my_cpu_ctl_env; };
-struct thread_data { struct tgc *current_context, *default_ctx; struct clist *my_context_list; };
+struct arena; struct thread_data { struct tgc *current_context, *default_ctx; struct clist *my_context_list; void *my_arena_slot; struct arena *my_arena; };
 uintptr_t the_context_state_propagation_epoch; int the_context_state_propagation_mutex;
 #define SPIN_WAIT_WHILE_EQ(loc, v) do { interfere(); __CPROVER_assume((loc) != (v)); } while (0)
 #define P_LOAD(f) (f)
@@ -246,7 +246,9 @@ static void td_propagate(struct thread_data *t, struct tgc *src, uint32_t ns) {
     __CPROVER_assert(g_bumps == 1, "C04.walk: the epoch was advanced exactly once before this walk");
     g_walked_any = true; if (t == &TL.base[g_k]) g_walks_k++;
 }
-#define LOOP_dis_1 __CPROVER_assigns(it_, g_walks_k, g_walked_any) __CPROVER_loop_invariant(it_ <= TL.n && g_walks_k == (it_ > g_k ? 1 : 0) && g_bumps == 1 && D.my_threads_list_mutex == 1) __CPROVER_decreases(TL.n - it_)
+#define LOOP_dis_1
+#define LOOP_dis_2
+#define LOOP_dis_threads __CPROVER_assigns(it_, g_walks_k, g_walked_any) __CPROVER_loop_invariant(it_ <= TL.n && g_walks_k == (it_ > g_k ? 1 : 0) && g_bumps == 1 && D.my_threads_list_mutex == 1) __CPROVER_decreases(TL.n - it_)
 #define LOOP_prop_1
 #define LOOP_prop_2
 #define P_STORE(c, v) ((c)->my_cancellation_requested = (v))
@@ -258,9 +260,10 @@ void h_dissem(void) {
     struct tgc src; src.my_may_have_children = nondet_uchar(); src.my_cancellation_requested = nondet_u32(); uint32_t ns = nondet_u32(); uintptr_t e0 = the_context_state_propagation_epoch = nondet_uintptr_t();
     bool r = dissem_propagate(&D, &src, ns);
     OBLIGATION(D.my_threads_list_mutex == 0 && the_context_state_propagation_mutex == 0, "C04.walk: every mutex is released on every path");
-    if (src.my_may_have_children != may_have_children) OBLIGATION(r && g_bumps == 0 && !g_walked_any, "C04.walk: a context that never had children needs no propagation");
-    else if (src.my_cancellation_requested != ns) OBLIGATION(!r && g_bumps == 0 && !g_walked_any, "C04.walk: a propagator whose source state was changed meanwhile backs down without touching anything");
-    else { OBLIGATION(r && g_bumps == 1 && the_context_state_propagation_epoch == e0 + 1, "C04.walk: one propagation advances the global epoch exactly once");
+    /* the bool result is not looked at by any caller (both forwarders return void): no obligation on it */
+    if (src.my_cancellation_requested != ns) OBLIGATION(g_bumps == 0 && !g_walked_any, "C04.walk: a propagator whose source state was changed meanwhile backs down without touching anything");
+    else if (src.my_may_have_children != may_have_children) OBLIGATION(g_bumps == 0 ? !g_walked_any : (g_bumps == 1 && (TL.n == 0 || g_walks_k == 1)), "C04.walk: a context that never had children needs no propagation (if one is made all the same, it is a complete one)");
+    else { OBLIGATION(g_bumps == 1 && the_context_state_propagation_epoch == e0 + 1, "C04.walk: one propagation advances the global epoch exactly once");
            OBLIGATION(TL.n == 0 || g_walks_k == 1, "C04.walk: EVERY registered thread's context list is walked, exactly once (any number of threads)"); }
     VACUITY_END();
 }
@@ -283,7 +286,9 @@ static void propagate_task_group_state(struct tgc *c, struct tgc *src, uint32_t 
     size_t i = (size_t)(c - CT); if (g_desc[i]) c->my_cancellation_requested = ns;
     if (g_desc_k && nondet_bool()) CT[g_k].my_cancellation_requested = ns;
 }
-#define LOOP_tdp_1 __CPROVER_assigns(it, __CPROVER_object_whole(CT)) __CPROVER_loop_invariant(it <= L.n && L.m_mutex == 1 && g_syncs == 0 && (it > g_k ? MARKED_K : 1) && (g_desc_k ? (CT[g_k].my_cancellation_requested == g_flag0k || CT[g_k].my_cancellation_requested == g_ns) : CT[g_k].my_cancellation_requested == g_flag0k)) __CPROVER_decreases(L.n - it)
+#define LOOP_tdp_1
+#define LOOP_tdp_2
+#define LOOP_tdp_contexts __CPROVER_assigns(it, __CPROVER_object_whole(CT)) __CPROVER_loop_invariant(it <= L.n && L.m_mutex == 1 && g_syncs == 0 && (it > g_k ? MARKED_K : 1) && (g_desc_k ? (CT[g_k].my_cancellation_requested == g_flag0k || CT[g_k].my_cancellation_requested == g_ns) : CT[g_k].my_cancellation_requested == g_flag0k)) __CPROVER_decreases(L.n - it)
 #include "tdwalk.inc"
 void h_tdwalk(void) {
     L.n = nondet_size_t(); __CPROVER_assume(L.n >= 1 && L.n <= NMAX); CT = malloc(L.n * sizeof(struct tgc)); g_desc = malloc(L.n * sizeof(bool)); __CPROVER_assume(CT && g_desc);
@@ -429,7 +434,13 @@ void h_ilist_empty(void) {
    access is a pointer-check failure.  Ghost: g_in = THE watched context K is linked in the list; g_cnt/g_orph = copies of size and orphaned flag that survive the list. */
 static struct clist *L; static struct tgc K, O; static struct eptr E;
 bool g_in, g_orph, g_owns; size_t g_cnt; int g_freed, g_dtors, g_removes, g_pushes, g_acq, g_edestroy, g_envd;
-#define SLOCK_ACQUIRE(m) do { __CPROVER_assert(g_freed == 0, "C04.registry: a freed list is never locked again"); __CPROVER_assert(!g_owns && (m) == 0, "C04.registry: the list mutex is free when it is taken (no self-deadlock)"); (m) = 1; g_owns = true; g_acq++; } while (0)
+#ifndef THREADS
+#define THREAD_EXIT_HOOK(p) ((void)0)
+#else
+bool g_tin; int g_lacq;
+#define THREAD_EXIT_HOOK(p) if ((void *)(p) == (void *)&L->m_mutex) g_lacq++; __CPROVER_assert((void *)(p) != (void *)&L->m_mutex || !g_tin, "C04.registry: a thread's context list is orphaned only after the thread was taken out of the disseminator's thread list - a propagation walk never reaches the list of a thread that is gone")
+#endif
+#define SLOCK_ACQUIRE(m) do { THREAD_EXIT_HOOK(&(m)); __CPROVER_assert(g_freed == 0, "C04.registry: a freed list is never locked again"); __CPROVER_assert(!g_owns && (m) == 0, "C04.registry: the list mutex is free when it is taken (no self-deadlock)"); (m) = 1; g_owns = true; g_acq++; } while (0)
 #define SLOCK_RELEASE(m) do { __CPROVER_assert(g_owns && (m) == 1, "C04.registry: only a held mutex is released"); (m) = 0; g_owns = false; } while (0)
 #define SLOCK_SCOPE_EXIT(m) do { if (g_owns) { (m) = 0; g_owns = false; } } while (0)          /* ~scoped_lock: unlocks only if the lock still owns the mutex */
 #define UNDER_LOCK(self) __CPROVER_assert((self) == L && g_freed == 0 && (self)->m_mutex == 1 && g_owns, "C04.registry: a context list is read and changed only under its own mutex - the mutex the propagation walk holds, so a walk never meets a half-linked or a removed context")
@@ -534,4 +545,91 @@ void h_tgc_reset(void) {
     OBLIGATION(K.my_exception == NULL && g_edestroy == (exc ? 1 : 0) && E.live == (exc ? 0 : 1), "C04.lifetime: reset releases a stored exception holder exactly once and forgets it");
     VACUITY_END();
 }
+#ifdef THREADS
+/* The registry of threads (cancellation_disseminator::my_threads_list) and the order of events at thread exit.  The thread list is abstract (size + membership of THE watched thread T);
+   the forwarders threading_control -> threading_control_impl -> cancellation_disseminator are real code. */
+struct dissem { int my_threads_list_mutex; size_t n; }; struct tci { struct dissem *my_cancellation_disseminator; }; struct tc { struct tci *my_pimpl; };
+struct arena { struct tc *my_threading_control; }; struct thread_dispatcher { struct tc *my_threading_control; };
+static struct dissem D; static struct tci TCI; static struct tc TCo; static struct arena AR; static struct thread_dispatcher TDP; static struct thread_data T, T2;
+size_t g_tn0; int g_tpush, g_tremove, g_fwd, g_td_dtor_done, g_td_freed, g_pool, g_leave; struct tgc *g_fwd_src; uint32_t g_fwd_ns; struct dissem *g_fwd_d;
+#define T_UNDER_LOCK(self) __CPROVER_assert((self) == &D && (self)->my_threads_list_mutex == 1 && g_owns, "C04.registry: the disseminator's thread list is changed only under my_threads_list_mutex - the mutex a propagation holds from before its first list walk until after its last, so the set of lists it walks cannot change under it")
+static void TLIST_PUSH_FRONT(struct dissem *self, struct thread_data *td) { T_UNDER_LOCK(self); __CPROVER_assert(td != &T || !g_tin, "C04.registry: a thread is registered at most once"); self->n++; g_tpush++; if (td == &T) g_tin = true; }
+static void TLIST_REMOVE(struct dissem *self, struct thread_data *td) { T_UNDER_LOCK(self); __CPROVER_assert(td == &T ? g_tin : self->n >= (size_t)1 + g_tin, "C04.registry: only a registered thread is unregistered"); self->n--; g_tremove++; if (td == &T) g_tin = false; }
+void dissem_register_thread(struct dissem *self, struct thread_data *td); void dissem_unregister_thread(struct dissem *self, struct thread_data *td);
+#define STUB_dissem_register_thread dissem_register_thread
+#define STUB_dissem_unregister_thread dissem_unregister_thread
+static void STUB_dissem_propagate_task_group_state(struct dissem *d, struct tgc *src, uint32_t ns) { g_fwd++; g_fwd_d = d; g_fwd_src = src; g_fwd_ns = ns; }
+static void STUB_pool_destroy(struct thread_data *td) { g_pool++; }
+#define TD_POISON(self, f) ((void)0)
+static void STUB_td_deallocate(struct thread_data *td) { __CPROVER_assert(td == &T && g_td_freed == 0 && g_lacq == 1, "C04.registry: the thread data is released once, after its context list was orphaned (exactly once)"); g_td_freed++; }
+static void STUB_clear_thread_data(void) {}
+static bool STUB_is_thread_data_set(struct thread_data *td) { return nondet_bool(); }
+static void STUB_set_thread_data(struct thread_data *td) {}
+static void STUB_notify_exit_observers(struct arena *a, struct thread_data *td) {}
+static void STUB_leave_task_dispatcher(struct thread_data *td) { g_leave++; }
+static void STUB_slot_release(struct thread_data *td) {}
+static void STUB_on_thread_leaving(struct arena *a) {}
+static void STUB_unregister_public_reference(struct tc *c) {}
+#include "threads.inc"
+static void mk_threads(bool registered) {
+    TCI.my_cancellation_disseminator = &D; TCo.my_pimpl = &TCI; AR.my_threading_control = &TCo; TDP.my_threading_control = &TCo; D.my_threads_list_mutex = 0;
+    g_tn0 = D.n = nondet_size_t(); __CPROVER_assume(g_tn0 < ((size_t)1 << 40)); g_tin = registered; __CPROVER_assume(!g_tin || g_tn0 >= 1);
+    g_tpush = g_tremove = g_fwd = g_td_freed = g_pool = g_leave = 0; g_owns = false; g_lacq = 0;
+}
+void h_thread_register(void) {
+    mk_threads(false); struct thread_data *td = nondet_bool() ? &T : &T2;
+    tc_register_thread(&TCo, td);
+    OBLIGATION(g_tpush == 1 && g_tremove == 0 && D.n == g_tn0 + 1 && g_tin == (td == &T), "C04.registry: register_thread puts exactly the given thread into the disseminator's list (every later propagation walks its context list)");
+    OBLIGATION(!g_owns && D.my_threads_list_mutex == 0, "C04.registry: the thread list mutex is released");
+    VACUITY_END();
+}
+void h_thread_unregister(void) {
+    mk_threads(true); struct thread_data *td = nondet_bool() ? &T : &T2; __CPROVER_assume(td == &T || g_tn0 >= 2);
+    tc_unregister_thread(&TCo, td);
+    OBLIGATION(g_tremove == 1 && g_tpush == 0 && D.n == g_tn0 - 1 && g_tin == (td != &T), "C04.registry: unregister_thread takes exactly the given thread out of the disseminator's list");
+    OBLIGATION(!g_owns && D.my_threads_list_mutex == 0, "C04.registry: the thread list mutex is released");
+    VACUITY_END();
+}
+void h_forward_propagate(void) {
+    mk_threads(nondet_bool()); struct tgc src; uint32_t ns = nondet_u32();
+    tc_propagate_task_group_state(&TCo, &src, ns);
+    OBLIGATION(g_fwd == 1 && g_fwd_d == &D && g_fwd_src == &src && g_fwd_ns == ns, "C04.cancel: the propagation request of the winning canceller reaches the disseminator exactly once, with the same source context and the same new state");
+    VACUITY_END();
+}
+static void thread_exit_post(void) {
+    OBLIGATION(!g_tin && g_tremove == 1 && g_tpush == 0, "C04.registry: a departing thread is taken out of the disseminator's thread list, once");
+    OBLIGATION(g_lacq == 1 && (g_freed || L->orphaned), "C04.registry: a departing thread orphans its context list exactly once");
+    g_orph = true;
+    OBLIGATION(FREED_IFF && !g_owns && (g_freed || L->m_mutex == 0), "C04.registry: an empty context list is freed by its departing thread, a list that still holds contexts is left to the last remove(); the mutex is released");
+    OBLIGATION(g_td_freed == 1 && g_pool == 1 && D.my_threads_list_mutex == 0, "C04.registry: the thread data is released once; the thread list mutex is released");
+}
+void h_thread_exit_external(void) {            /* governor::auto_terminate for an external thread: it occupies an arena slot (init_external_thread) and is registered */
+    mk_list(false); mk_threads(true); T.my_context_list = L; T.my_arena_slot = &AR; T.my_arena = &AR;
+    governor_auto_terminate(&T);
+    thread_exit_post();
+    OBLIGATION(g_leave == 1, "C04.registry: an external thread leaves its task dispatcher before it is unregistered");
+    VACUITY_END();
+}
+void h_thread_exit_worker(void) {              /* thread_dispatcher::cleanup for a worker: registered (create_one_job), outside any arena (arena::process cleared the slot) */
+    mk_list(false); mk_threads(true); T.my_context_list = L; T.my_arena_slot = NULL; T.my_arena = NULL;
+    thread_dispatcher_cleanup(&TDP, &T);
+    thread_exit_post();
+    VACUITY_END();
+}
+/* Reachability: a bound context must be cancelled with its ancestors for as long as it lives, so the list it is registered in must stay within reach of the propagator
+   (= belong to a thread that is in the disseminator's thread list) until the context is destroyed.  Domain split: the departing thread's list holds no context / still holds
+   THE watched (live, bound) context K. */
+static void reach_pre(void) {
+    mk_list(false);
+#ifdef CONTEXTS_LEFT
+    __CPROVER_assume(g_in);                     /* K was bound by this thread and outlives it (the orphaned-list protocol exists for exactly this case) */
+#else
+    __CPROVER_assume(n0 == 0);
+#endif
+    mk_threads(true); T.my_context_list = L;
+}
+#define REACH_POST OBLIGATION(!g_in || g_tin, "C04.registry: a bound context stays within reach of every later propagation until it is destroyed - the context list it is registered in belongs to a thread that is in the disseminator's thread list (a context that outlives the thread that bound it is still cancelled with its ancestors)")
+void h_reach_external(void) { reach_pre(); T.my_arena_slot = &AR; T.my_arena = &AR; governor_auto_terminate(&T); REACH_POST; VACUITY_END(); }
+void h_reach_worker(void) { reach_pre(); T.my_arena_slot = NULL; T.my_arena = NULL; thread_dispatcher_cleanup(&TDP, &T); REACH_POST; VACUITY_END(); }
+#endif
 #endif
